@@ -209,6 +209,68 @@ func extract(repo string) error {
 		return fmt.Errorf("isContainerType not found in utils.go")
 	}
 
+	// facts about the code writers: which guards / tests the emitted text contains (string literals of the writer functions)
+	lits := func(file, fn string) ([]string, error) {
+		af, err := goparser.ParseFile(fset, filepath.Join(repo, "generator", "fastgo", file), nil, 0)
+		if err != nil {
+			return nil, err
+		}
+		var out []string
+		ok := false
+		for _, d := range af.Decls {
+			fd, isf := d.(*ast.FuncDecl)
+			if !isf || fd.Name.Name != fn || fd.Body == nil {
+				continue
+			}
+			ok = true
+			ast.Inspect(fd.Body, func(n ast.Node) bool {
+				if bl, isl := n.(*ast.BasicLit); isl && bl.Kind == token.STRING {
+					if v, err := strconv.Unquote(bl.Value); err == nil {
+						out = append(out, v)
+					}
+				}
+				return true
+			})
+		}
+		if !ok {
+			return nil, fmt.Errorf("%s: function %s not found", file, fn)
+		}
+		return out, nil
+	}
+	has := func(ls []string, sub string) bool {
+		for _, l := range ls {
+			if strings.Contains(l, sub) {
+				return true
+			}
+		}
+		return false
+	}
+	frl, err := lits("gen_fastread.go", "genFastRead")
+	if err != nil {
+		return err
+	}
+	bll, err := lits("gen_blength.go", "genBLengthField")
+	if err != nil {
+		return err
+	}
+	fal, err := lits("gen_fastwrite.go", "genFastAppendField")
+	if err != nil {
+		return err
+	}
+	if !has(frl, "x.Skip(b[off:], ftyp)") {
+		return fmt.Errorf("gen_fastread.go: the skip call `x.Skip(b[off:], ftyp)` was not found in genFastRead")
+	}
+	facts := []struct {
+		name, doc string
+		val       bool
+	}{
+		{"guardNegativeType", "genFastRead emits `if ftyp < 0 { … goto SkipFieldError }` before the Skip of the default branch", has(frl, "if ftyp < 0")},
+		{"guardRecover", "genFastRead wraps the Skip call in a function literal that recovers a panic into an error", has(frl, "recover()")},
+		{"guardSkipLength", "genFastRead emits `if off > len(b) { … goto SkipFieldError }` after the Skip", has(frl, "if off > len(b)")},
+		{"optBinDefaultCmpBLength", "genBLengthField guards an optional binary field WITH a default by `string(p.F) != string(default)`", has(bll, "if string(%s) != string(")},
+		{"optBinDefaultCmpFastAppend", "genFastAppendField does the same", has(fal, "if string(%s) != string(")},
+	}
+
 	var sb strings.Builder
 	sb.WriteString("/- GENERATED by harness/cmd/c10 extract from /repo (generator/fastgo/consts.go, utils.go; parser.Category values;\n   TType constants of cloudwego/gopkg). Do not edit. -/\nnamespace Generated.C10\n\n")
 	for _, c := range categories {
@@ -229,6 +291,10 @@ func extract(repo string) error {
 	fmt.Fprintf(&sb, "def category2WireSize : List Nat := %s\n", list(tables["category2WireSize"]))
 	sb.WriteString("\n/-- utils.go isContainerType: categories answered `true` -/\n")
 	fmt.Fprintf(&sb, "def containerCats : List Nat := %s\n", list(containerCats))
+	sb.WriteString("\n/-! facts about the text the code writers emit -/\n")
+	for _, f := range facts {
+		fmt.Fprintf(&sb, "/-- %s -/\ndef %s : Bool := %v\n", f.doc, f.name, f.val)
+	}
 	sb.WriteString("\nend Generated.C10\n")
 	fmt.Print(sb.String())
 	return nil
